@@ -15,13 +15,42 @@ class Disconnection:
     if not self.is_connected():
       raise gfapy.RuntimeError(
         "Line {} is not connected to a GFA instance".format(self))
-    self._remove_field_backreferences()
-    self._remove_field_references()
-    self._disconnect_dependent_lines()
-    self._remove_nonfield_backreferences()
-    self._remove_nonfield_references()
-    self._gfa._unregister_line(self)
-    self._gfa = None
+    placeholders = self._referenced_virtual_lines()
+    self.__dict__["_disconnecting"] = True
+    try:
+      self._remove_field_backreferences()
+      self._remove_field_references()
+      self._disconnect_dependent_lines()
+      self._remove_nonfield_backreferences()
+      self._remove_nonfield_references()
+      self._gfa._unregister_line(self)
+      self._gfa = None
+    finally:
+      del self.__dict__["_disconnecting"]
+    for line in placeholders:
+      # placeholders for lines which are not referenced anymore are removed
+      if line.is_connected() and not line.all_references and \
+          not line.__dict__.get("_disconnecting"):
+        line.disconnect()
+
+  def _referenced_virtual_lines(self):
+    """Virtual lines (placeholders for lines which were referenced, but not
+    found), to which the line refers."""
+    retval = []
+    def collect(ref):
+      if isinstance(ref, gfapy.OrientedLine):
+        ref = ref.line
+      if isinstance(ref, list):
+        for elem in ref:
+          collect(elem)
+      elif isinstance(ref, gfapy.Line) and ref.virtual and \
+          not any(ref is line for line in retval):
+        retval.append(ref)
+    for k in self.__class__.REFERENCE_FIELDS:
+      collect(self.get(k))
+    for k in self.__class__.OTHER_REFERENCES:
+      collect(self._refs.get(k, []))
+    return retval
 
   def _delete_reference(self, line, key):
     if key not in self._refs: return
